@@ -22,7 +22,7 @@ Spec(p, d, off) ==
     [] p = "op" -> [r |-> LexOp(d, off, <<97, 97>>), strict |-> TRUE, hasval |-> FALSE]
     [] p = "rune" -> [r |-> LexRune(d, off, 233), strict |-> TRUE, hasval |-> FALSE]
     [] p = "duration" -> [r |-> LexDuration(d, off, Ev.inrange), strict |-> TRUE, hasval |-> FALSE]
-    [] p \in {"regexp", "regexp2"} -> [r |-> LexRegexp(d, off, Ev.rx), strict |-> TRUE, hasval |-> FALSE]
+    [] p \in {"regexp", "regexp2", "regexp3"} -> [r |-> LexRegexp(d, off, Ev.rx), strict |-> TRUE, hasval |-> FALSE]
 
 LineOK ==
   LET s == Spec(Ev.p, Ev.d, Ev.off) IN
